@@ -1417,6 +1417,11 @@ class SimulationResults(JsonSerializable):
             'results': results
         }
 
+        # The `rep_max` attribute only exists in the SimulationResults of a
+        # SimulationRunner object (it is set when the simulation starts)
+        if hasattr(self, 'rep_max'):
+            d['rep_max'] = self.rep_max  # type: ignore
+
         return d
 
     @staticmethod
@@ -1463,6 +1468,8 @@ class SimulationResults(JsonSerializable):
         simresults.runned_reps = d['runned_reps']
         simresults.original_filename = d['original_filename']
         simresults._results = results
+        if 'rep_max' in d:
+            simresults.rep_max = d['rep_max']  # type: ignore
 
         return simresults
 
